@@ -18,6 +18,7 @@ import (
 //   - error: Error if compaction fails
 func (s *PersistentHybridIndex) maybeCompact() error {
 	segments := s.segmentManager.list()
+	verifHook("compact.start", len(segments))
 
 	// Only compact if we have enough segments
 	if len(segments) < s.config.CompactionThreshold {
@@ -64,6 +65,7 @@ func (s *PersistentHybridIndex) compactSegments(segments []*segmentMetadata) err
 		if err != nil {
 			return fmt.Errorf("failed to load segment %d: %w", seg.id, err)
 		}
+		verifHook("compact.loaded", seg.id)
 
 		// Extract all documents from segment and add to merged index
 		// This requires iterating through the underlying indexes
@@ -74,6 +76,7 @@ func (s *PersistentHybridIndex) compactSegments(segments []*segmentMetadata) err
 
 	// Generate new segment ID and paths
 	newSegmentID := s.provider.nextSegmentID()
+	verifHook("compact.id", newSegmentID)
 	hybridPath, vectorPath, textPath, metadataPath := s.provider.segmentPaths(newSegmentID)
 
 	// Write merged index to disk
@@ -93,13 +96,16 @@ func (s *PersistentHybridIndex) compactSegments(segments []*segmentMetadata) err
 
 	// Atomically swap segments
 	s.mu.Lock()
+	verifHook("compact.swap.begin", newSegmentID)
 
 	// Add new segment
 	s.segmentManager.add(newSegment)
+	verifHook("compact.add", newSegmentID)
 
 	// Remove old segments
 	for _, seg := range segments {
 		s.segmentManager.remove(seg.id)
+		verifHook("compact.unlist", seg.id)
 
 		// Delete old segment files
 		if err := s.provider.deleteSegment(seg.id); err != nil {
@@ -108,6 +114,7 @@ func (s *PersistentHybridIndex) compactSegments(segments []*segmentMetadata) err
 		}
 	}
 
+	verifHook("compact.swap.end", newSegmentID)
 	s.mu.Unlock()
 
 	return nil
@@ -124,6 +131,7 @@ func (s *PersistentHybridIndex) writeIndexToSegment(
 		return fmt.Errorf("failed to create hybrid file: %w", err)
 	}
 	defer hybridFile.Close()
+	verifHook("cw.create", hybridPath, "hybrid")
 
 	hybridGz := gzip.NewWriter(hybridFile)
 	defer hybridGz.Close()
@@ -138,6 +146,7 @@ func (s *PersistentHybridIndex) writeIndexToSegment(
 			return fmt.Errorf("failed to create vector file: %w", err)
 		}
 		defer vectorFile.Close()
+		verifHook("cw.create", hybridPath, "vector")
 
 		vectorGz = gzip.NewWriter(vectorFile)
 		defer vectorGz.Close()
@@ -150,6 +159,7 @@ func (s *PersistentHybridIndex) writeIndexToSegment(
 			return fmt.Errorf("failed to create text file: %w", err)
 		}
 		defer textFile.Close()
+		verifHook("cw.create", hybridPath, "text")
 
 		textGz = gzip.NewWriter(textFile)
 		defer textGz.Close()
@@ -162,6 +172,7 @@ func (s *PersistentHybridIndex) writeIndexToSegment(
 			return fmt.Errorf("failed to create metadata file: %w", err)
 		}
 		defer metadataFile.Close()
+		verifHook("cw.create", hybridPath, "metadata")
 
 		metadataGz = gzip.NewWriter(metadataFile)
 		defer metadataGz.Close()
@@ -183,17 +194,23 @@ func (s *PersistentHybridIndex) writeIndexToSegment(
 		return fmt.Errorf("failed to write index: %w", err)
 	}
 
+	verifHook("cw.written", hybridPath)
+
 	// Close gzip writers
 	if vectorGz != nil {
 		vectorGz.Close()
+		verifHook("cw.close", hybridPath, "vector")
 	}
 	if textGz != nil {
 		textGz.Close()
+		verifHook("cw.close", hybridPath, "text")
 	}
 	if metadataGz != nil {
 		metadataGz.Close()
+		verifHook("cw.close", hybridPath, "metadata")
 	}
 	hybridGz.Close()
+	verifHook("cw.close", hybridPath, "hybrid")
 
 	return nil
 }
